@@ -191,7 +191,15 @@ def run(chk):
     chk.assumptions += [
         "model in FIXED mode: fixes/C08-dvar-loop, C08-integer-division, C08-symbolic-coefficient, C08-stale-subscript, "
         "C08-inner-variable-subscript (on a tree without them the check reports the failing inputs of these classes)",
-        "MiniF semantics (integer stores, unbounded arrays) stands for Fortran on the generated programs",
+        "MiniF semantics (integer stores, unbounded arrays) stands for Fortran on the generated programs; a structure "
+        "member signature (`cfg%off`, `pp%x`, `g%a`) is a MiniF variable of its own with the flattened subscripts "
+        "(distinct signatures never alias; checked precondition C08.sigTabOk: no whole-structure access next to a "
+        "member access)",
+        "outside the exported subset, refused by the exporter and counted (distribution.export_refused): WHILE loops, "
+        "calls, code blocks, whole-array / whole-structure references, array sections, rank > 2",
+        "PSyKAl family: the LFRic/GOcean domain rules are computed by the harness from kernel metadata (GH_INC, "
+        "reduction built-in, stencil offsets); coloured LFRic loops are not examined (the generic analysis raises "
+        "KeyError on them at HEAD, PSyclone TODO #1648)",
         "exemption = C08.privScalar (statically: first access on every path is an unconditional write; a DO statement "
         "writes its own variable unconditionally)",
         "iterations traced sequentially from the program's init store, at most %d per loop" % CAP,
@@ -222,10 +230,12 @@ def run(chk):
     flav, codes = {}, {}
     prepared = []
     part_cases = []
+    export_refused = [0]
     for name, src, fl in sources:
         try:
             ex, loop = c08_gen.export_case(src)
-        except minif.Unsupported:
+        except minif.Unsupported:      # checked precondition of the correspondence (WHILE, calls, whole arrays/structures)
+            export_refused[0] += 1
             continue
         prepared.append((name, src, fl, ex, real_verdict(loop)))
         try:
@@ -283,7 +293,7 @@ def run(chk):
         if compared and not res["agree"]:
             chk.correspondence_broken("can_loop_be_parallelised differs from C08.canParallelise", {"source": src},
                                       res["model"], res["real"])
-    chk.cov["distribution"] = dict(dist, flavours=flav, message_codes=codes)
+    chk.cov["distribution"] = dict(dist, flavours=flav, message_codes=codes, export_refused=export_refused[0])
     # real PSy-layer loops (LFRic / GOcean kernels and built-ins): answers, domain rule, GOcean model correspondence
     chk.cov["psykal_family"] = c08_psykal.run_family(chk)
     # known findings: replay the witnesses against the real code
